@@ -111,19 +111,109 @@ def reference(spec: dict) -> dict:
     return {'stdout': tee.text(), 'writes': tee.writes, 'exc': _exc_summary(exc), 'ret': ret if isinstance(ret, (int, str, float, bool, type(None), list)) else repr(ret)}
 
 
+_GEN_FLAGS = 0x20 | 0x80 | 0x200      # CO_GENERATOR | CO_COROUTINE | CO_ASYNC_GENERATOR
+
+
 def recorder(spec: dict, all_modules: bool = False) -> dict:
-    """independent sys.settrace/threading.settrace recorder: every call/line/return/exception per entity"""
+    """independent sys.settrace/threading.settrace recorder: every call/line/return/exception per entity.
+
+    `events`: per entity the 5-tuples (file, line, event, function, module) — unchanged.
+    `stream`: per entity the interpreter-level stream model D2 consumes: a list of records
+        ['f', fid, parent fid or None, is generator/coroutine (0/1), module, function]    (frame table entry, new or changed f_back)
+        ['e', fid, line, event, exception kind, deepest traceback frame fid or None]
+      frame ids are small ints in order of first appearance (all frame objects are kept alive during the run, so `id(frame)` is
+      never reused); exception kind: 0 none/other, 1 StopIteration without traceback, 2 StopIteration with traceback, 3 GeneratorExit.
+      The frame table is refreshed (whole f_back chain) at every 'call' event, and for the deepest traceback frame of an exception.
+      When a recorded frame is entered from a frame that is not recorded (library code, or the script's caller), the caller's
+      `f_trace` is set as well, so that its later line/return/exception events are in the stream (bdb's `set_step` does the same
+      to that frame, and model D2 needs to see what reaches Pdb through that route).
+    `order`: entity keys in order of first appearance.
+    """
+    import gc
+    gc.collect()
     rec: dict = {}
+    stream: dict = {}
+    order: list = []
+    fids: dict = {}
+    keep: list = []
+    known: dict = {}
     lock = threading.Lock()
     mod = _mod()
+    here = __name__
+
+    def fid_of(frame: Any) -> int:
+        k = id(frame)
+        if k not in fids:
+            fids[k] = len(fids)
+            keep.append(frame)
+        return fids[k]
+
+    def table(frame: Any, out: list) -> None:
+        """emit frame-table entries for `frame` and its f_back chain where new or changed"""
+        depth = 0
+        while frame is not None and depth < 200:
+            i = fid_of(frame)
+            back = frame.f_back
+            p = None if back is None else fid_of(back)
+            ent = (p, 1 if frame.f_code.co_flags & _GEN_FLAGS else 0)
+            if known.get(i) == ent:
+                break
+            known[i] = ent
+            out.append(['f', i, p, ent[1], frame.f_globals.get('__name__'), frame.f_code.co_name])
+            frame = back
+            depth += 1
+
+    def exc_kind(arg: Any) -> int:
+        try:
+            if arg[0] is StopIteration:
+                return 1 if arg[2] is None else 2
+            if arg[0] is GeneratorExit:
+                return 3
+        except Exception:  # noqa
+            pass
+        return 0
+
+    def note(frame: Any, event: str, arg: Any, name: Any) -> None:
+        with lock:
+            key = entity_key()
+            if key not in stream:
+                stream[key] = []
+                order.append(key)
+            st = stream[key]
+            deep = None
+            if event == 'call':
+                table(frame, st)
+            elif event == 'exception':
+                tb = arg[2]
+                last = None
+                while tb is not None:
+                    last = tb.tb_frame
+                    tb = tb.tb_next
+                if last is not None and last is not frame:
+                    table(last, st)
+                    deep = fid_of(last)
+            i = fid_of(frame)
+            if i not in known:
+                table(frame, st)
+            st.append(['e', i, frame.f_lineno, event, exc_kind(arg) if event == 'exception' else 0, deep])
+            rec.setdefault(key, []).append((frame.f_code.co_filename, frame.f_lineno, event, frame.f_code.co_name, name))
+
+    def tr_caller(frame: Any, event: str, arg: Any) -> Any:
+        # local trace function of an otherwise unrecorded caller of a recorded frame
+        if event in ('line', 'return', 'exception'):
+            note(frame, event, arg, frame.f_globals.get('__name__'))
+        return tr_caller
 
     def tr(frame: Any, event: str, arg: Any) -> Any:
         name = frame.f_globals.get('__name__')
         if not all_modules and name != mod and name != '__nlv_callable__':
             return None
         if event in ('call', 'line', 'return', 'exception'):
-            with lock:
-                rec.setdefault(entity_key(), []).append((frame.f_code.co_filename, frame.f_lineno, event, frame.f_code.co_name, name))
+            if event == 'call':
+                back = frame.f_back
+                if back is not None and back.f_trace is None and back.f_globals.get('__name__') != here:
+                    back.f_trace = tr_caller
+            note(frame, event, arg, name)
         return tr
     tee = _Tee()
     old = sys.stdout
@@ -144,11 +234,22 @@ def recorder(spec: dict, all_modules: bool = False) -> dict:
         sys.settrace(None)
         threading.settrace(None)  # type: ignore[arg-type]
         sys.stdout = old
-    return {'events': rec}
+    for fr in keep:
+        try:
+            if fr.f_trace is tr_caller:
+                fr.f_trace = None
+        except Exception:  # noqa
+            pass
+    keep.clear()
+    return {'events': rec, 'stream': stream, 'order': order}
 
 
 def traced(spec: dict) -> dict:
+    import gc
     from nextline import events as E
+    # garbage of earlier runs (a `_Tee` held by an exception's traceback cycle, …) must not be finalised inside the traced region:
+    # `IOBase.__del__` calls the Python-level `flush`, which module tracing would take for the first traced module
+    gc.collect()
     from nextline.spawned import PdbCommand, RunArg, run
     qi: Any = queue.Queue()
     qo: Any = queue.Queue()
@@ -159,7 +260,7 @@ def traced(spec: dict) -> dict:
     sent: list = []
     nprompts = [0]
 
-    def choose(ev: Any) -> Optional[str]:
+    def choose(ev: Any, policy: dict = policy) -> Optional[str]:
         k = policy['kind']
         if k == 'all':
             return policy['command']
@@ -170,6 +271,9 @@ def traced(spec: dict) -> dict:
             per_trace[ev.trace_no] = i + 1
             seq = policy['commands']
             return seq[i] if i < len(seq) else policy.get('then', 'continue')
+        if k == 'by_trace':
+            # one policy for the first trace (the main thread), another for all other traces
+            return choose(ev, policy['main'] if ev.trace_no == 1 else policy['others'])
         raise ValueError(k)
 
     withheld: dict = {'trace': None, 'event': None, 'released_at': None, 'thread_traces': {}}
